@@ -178,49 +178,22 @@ theorem trimEndStr_upper (s : Str) : trimEndStr (s.map upper) = (trimEndStr s).m
 theorem getLast?_map_foldTok (ts : List Token) : (ts.map foldTok).getLast? = ts.getLast?.map foldTok := by
   simp [List.getLast?_map]
 
-/-- first half of `trim_end` -/
-def popBlank (ts : List Token) : List Token :=
-  match ts.getLast? with
-  | some (.whitespace _) => ts.dropLast
-  | _ => ts
-
-/-- second half of `trim_end` -/
-def trimLast (ts : List Token) : List Token :=
-  match ts.getLast? with
-  | some (.unknown s) =>
-    if (trimEndStr s).isEmpty then popBlank ts.dropLast else ts.dropLast ++ [.unknown (trimEndStr s)]
-  | _ => ts
-
-theorem trimEnd_eq (ts : List Token) : trimEnd ts = trimLast (popBlank ts) := rfl
-
-theorem popBlank_foldTok (l : List Token) : popBlank (l.map foldTok) = (popBlank l).map foldTok := by
-  unfold popBlank
-  rw [getLast?_map_foldTok]
-  cases hl : l.getLast? with
-  | none => rfl
-  | some t => cases t with
-    | whitespace n => simp [foldTok, List.map_dropLast]
-    | unknown s => simp [foldTok]
-    | literal x => cases x <;> simp [foldTok]
-    | _ => simp [foldTok]
-
-theorem trimLast_foldTok (l : List Token) : trimLast (l.map foldTok) = (trimLast l).map foldTok := by
-  unfold trimLast
-  rw [getLast?_map_foldTok]
-  cases hl : l.getLast? with
-  | none => rfl
-  | some t =>
+theorem trimEndRev_foldTok (l : List Token) : trimEndRev (l.map foldTok) = (trimEndRev l).map foldTok := by
+  induction l with
+  | nil => rfl
+  | cons t r ih =>
     cases t with
+    | whitespace n => simpa [trimEndRev, foldTok] using ih
     | unknown s =>
-      simp only [Option.map_some, foldTok, trimEndStr_upper, List.isEmpty_map]
+      simp only [List.map_cons, foldTok, trimEndRev, trimEndStr_upper, List.isEmpty_map]
       split
-      · rw [← List.map_dropLast, popBlank_foldTok]
-      · simp [List.map_dropLast, foldTok, map_upper_upper]
-    | literal x => cases x <;> simp [foldTok]
-    | _ => simp [foldTok]
+      · exact ih
+      · simp [foldTok, map_upper_upper]
+    | literal x => cases x <;> simp [foldTok, trimEndRev]
+    | _ => simp [foldTok, trimEndRev]
 
 theorem trimEnd_foldTok (ts : List Token) : trimEnd (ts.map foldTok) = (trimEnd ts).map foldTok := by
-  rw [trimEnd_eq, trimEnd_eq, popBlank_foldTok, trimLast_foldTok]
+  simp only [trimEnd, ← List.map_reverse, trimEndRev_foldTok]
 
 theorem postPasses_foldTok (ts : List Token) : postPasses (ts.map foldTok) = (postPasses ts).map foldTok := by
   simp only [postPasses, trimEnd_foldTok, collapseTriples_foldTok, collapseDoubles_foldTok,
